@@ -429,7 +429,14 @@ impl fmt::Display for Summary {
  */
 #[derive(Clone, Debug, Default)]
 pub struct Summary {
+    #[cfg(not(feature = "verif-hooks"))]
     entries: HashMap<SummaryVariable, SummaryValue>,
+    #[cfg(feature = "verif-hooks")]
+    entries: HashMap<
+        SummaryVariable,
+        SummaryValue,
+        crate::verif_hooks::SimBuildHasher,
+    >,
 }
 
 impl Summary {
